@@ -33,8 +33,11 @@ these theorems without any test input having to hit it.
   text carries one of the markers the classifier looks for — a back-tick anywhere, or `[if`, `xml`, `import`,
   `entity` (any case, NULs tolerated in the last two) at its start — whatever follows the construct.
 
-NUL bytes inside names: C11's `nul_in_name` (every name token, every context). Not theorems: comment bodies
-that contain dashes before their terminator, `--!>` as terminator — enumerated by the oracle. -/
+* `comment_detected_dashes`, `comment_detected_general` — **comment bodies with dashes**: the body may contain dashes
+  (any text free of `>`, or more generally any text in which no terminator `-` NUL* (`-`|`!`) `>` starts), and the
+  terminator may be `-->`, `-!>` or `--!>`.
+
+NUL bytes inside names: C11's `nul_in_name` (every name token, every context). -/
 namespace LibInj.Properties.C04
 open LibInj LibInj.Xss LibInj.H5
 
@@ -99,6 +102,24 @@ theorem decl_detected (p T' tail : Bytes) (c : UInt8) (hp : (60 : UInt8) ∉ p) 
 theorem comment_detected (p T tail : Bytes) (hp : (60 : UInt8) ∉ p) (hT : (45 : UInt8) ∉ T)
     (htail : tail = [] ∨ ∃ r, tail = 45 :: 45 :: 62 :: r) (hm : Marker T) :
     isXSSCtx (p ++ 60 :: 33 :: 45 :: 45 :: (T ++ tail)) 0 = .ok true := Xss.comment_detected p T tail hp hT htail hm
+
+/-- **comment with dashes in its body**: `T` free of `>` (dashes allowed), followed by end of input, `-->` or `-!>` (hence
+also `--!>`: the body then ends in a dash) -/
+theorem comment_detected_dashes (p T tail : Bytes) (hp : (60 : UInt8) ∉ p) (hT : (62 : UInt8) ∉ T)
+    (htail : tail = [] ∨ ∃ e r, (e = 45 ∨ e = 33) ∧ tail = 45 :: e :: 62 :: r) (hm : Marker T) :
+    isXSSCtx (p ++ 60 :: 33 :: 45 :: 45 :: (T ++ tail)) 0 = .ok true := Xss.comment_detected_dashes p T tail hp hT htail hm
+
+/-- **comment, general form**: any body in which no terminator `-` NUL* (`-`|`!`) `>` starts (the body is exactly the
+text before the first terminator) -/
+theorem comment_detected_general (p T tail : Bytes) (hp : (60 : UInt8) ∉ p)
+    (hT : ∀ j n, j < T.length → ¬ ComEnd (T ++ tail) j n)
+    (htail : tail = [] ∨ ∃ e r, (e = 45 ∨ e = 33) ∧ tail = 45 :: e :: 62 :: r) (hm : Marker T) :
+    isXSSCtx (p ++ 60 :: 33 :: 45 :: 45 :: (T ++ tail)) 0 = .ok true := Xss.comment_detected_general p T tail hp hT htail hm
+
+/-- non-vacuity: `x<!--[if IE-6]-a--!>y` — body `[if IE-6]-a-` (dashes, no `>`), terminator `-!>` -/
+example : isXSSCtx ([120] ++ 60 :: 33 :: 45 :: 45 :: ([91, 105, 102, 32, 73, 69, 45, 54, 93, 45, 97, 45] ++ [45, 33, 62, 121])) 0 = .ok true :=
+  comment_detected_dashes [120] [91, 105, 102, 32, 73, 69, 45, 54, 93, 45, 97, 45] [45, 33, 62, 121] (by decide) (by decide)
+    (Or.inr ⟨33, [121], Or.inr rfl, rfl⟩) (Or.inr (Or.inl ⟨105, 102, 32, _, rfl, by decide⟩))
 
 /-- **`<% T %>`**, `T` free of `%` -/
 theorem percent_detected (p T tail : Bytes) (hp : (60 : UInt8) ∉ p) (hT : (37 : UInt8) ∉ T)
